@@ -79,14 +79,166 @@ def cvc5_check(smt2, timeout_s):
         os.unlink(path)
 
 
+def _conjuncts(e, out):
+    if z3.is_and(e):
+        for c in e.children():
+            _conjuncts(c, out)
+    else:
+        out.append(e)
+    return out
+
+
+def _has_quant(e, seen=None):
+    seen = seen if seen is not None else set()
+    if e.get_id() in seen:
+        return False
+    seen.add(e.get_id())
+    if z3.is_quantifier(e):
+        return True
+    return any(_has_quant(c, seen) for c in e.children())
+
+
+def _select_indices(e, out, seen):
+    if e.get_id() in seen:
+        return
+    seen.add(e.get_id())
+    if z3.is_quantifier(e):
+        return
+    if z3.is_app(e):
+        if e.decl().kind() == z3.Z3_OP_SELECT:
+            idx = e.arg(1)
+            if not any(z3.eq(idx, o) for o in out):
+                out.append(idx)
+        elif e.decl().kind() == z3.Z3_OP_UNINTERPRETED and e.num_args() == 1:
+            idx = e.arg(0)
+            if not any(z3.eq(idx, o) for o in out):
+                out.append(idx)
+        for c in e.children():
+            _select_indices(c, out, seen)
+
+
+_AC_CACHE = {}
+_KEEP = []
+
+
+def array_consts_of(e):
+    k = e.get_id()
+    if k not in _AC_CACHE:
+        _AC_CACHE[k] = frozenset(_array_consts(e, set(), set()))
+        _KEEP.append(e)
+    return _AC_CACHE[k]
+
+
+_HQ_CACHE = {}
+
+
+def has_quant_cached(e):
+    k = e.get_id()
+    if k not in _HQ_CACHE:
+        _HQ_CACHE[k] = _has_quant(e)
+        _KEEP.append(e)
+    return _HQ_CACHE[k]
+
+
+def _array_consts(e, out, seen):
+    if e.get_id() in seen:
+        return out
+    seen.add(e.get_id())
+    if z3.is_const(e) and e.decl().kind() == z3.Z3_OP_UNINTERPRETED and z3.is_array(e):
+        out.add(e.get_id())
+    if z3.is_quantifier(e):
+        _array_consts(e.body(), out, seen)
+    else:
+        for c in e.children():
+            _array_consts(c, out, seen)
+    return out
+
+
+_SK = [0]
+
+
+def quick_instantiate(pc, goal, timeout_ms):
+    """Sound, incomplete pre-pass: skolemise a universally quantified goal, instantiate the universally
+    quantified hypotheses at the index terms that occur in the goal and the quantifier-free hypotheses, drop the
+    quantifiers and decide the quantifier-free rest by bit-blasting.  Only an `unsat` answer is used."""
+    hyps = _conjuncts(pc, [])
+    qh = [h for h in hyps if z3.is_quantifier(h) and h.is_forall() and h.num_vars() == 1]
+    rest = [h for h in hyps if not has_quant_cached(h)]
+    goals = _conjuncts(goal, [])
+    for g in goals:
+        g0 = g
+        if z3.is_quantifier(g) and g.is_forall() and g.num_vars() == 1:
+            _SK[0] += 1
+            sk = z3.Const("sk!%d" % _SK[0], g.var_sort(0))
+            g0 = z3.substitute_vars(g.body(), sk)
+        if _has_quant(g0):
+            return False
+        terms = []
+        seen = set()
+        _select_indices(g0, terms, seen)
+        garr = array_consts_of(g0)
+        for h in rest:
+            if array_consts_of(h) & garr:
+                _select_indices(h, terms, seen)
+        terms = terms[:24]
+        rel_qh = [q for q in qh if (array_consts_of(q) & garr) or not array_consts_of(q)]
+        # rng => (p1 and p2 and ...): each conjunct is decided on its own (their conjunction's negation is a
+        # disjunction the SAT core handles far worse than the separate queries)
+        extra = []
+        while z3.is_implies(g0):
+            extra.extend(_conjuncts(g0.arg(0), []))
+            g0 = g0.arg(1)
+        insts = []
+        for q in rel_qh:
+            for t in terms:
+                if t.sort() == q.var_sort(0):
+                    insts.append(z3.substitute_vars(q.body(), t))
+        deadline = time.time() + timeout_ms / 1000.0
+        for part in _conjuncts(g0, []):
+            s = z3.Solver()
+            s.set("timeout", max(1000, int((deadline - time.time()) * 1000)))
+            for h in rest:
+                s.add(h)
+            for h in extra:
+                s.add(h)
+            for h in insts:
+                s.add(h)
+            s.add(z3.Not(part))
+            tq = time.time()
+            rq = s.check()
+            if os.environ.get("A5VERIF_TRACE2"):
+                print("   [part %.2fs %s] terms=%d insts=%d rest=%d %s" % (time.time() - tq, rq, len(terms), len(insts), len(rest), str(part)[:80].replace("\n", " ")), flush=True)
+            if rq != z3.unsat:
+                return False
+    return True
+
+
+_DUMPN = [0]
+
+
 def discharge(ob, inputs, timeout_ms, use_cvc5=True, both=False):
     t0 = time.time()
+    if os.environ.get("A5VERIF_DUMP") and os.environ["A5VERIF_DUMP_MATCH"] in ob.name:
+        _DUMPN[0] += 1
+        with open(os.path.join(os.environ["A5VERIF_DUMP"], "vc%03d.smt2" % _DUMPN[0]), "w") as f:
+            f.write("; %s\n" % ob.name + smt2_of(ob.pc, ob.goal))
+    if any(has_quant_cached(h) for h in _conjuncts(ob.pc, [])) or _has_quant(ob.goal):
+        try:
+            ok = quick_instantiate(ob.pc, ob.goal, min(timeout_ms, 30000))
+        except z3.Z3Exception:
+            ok = False
+        if os.environ.get("A5VERIF_TRACE"):
+            print("[inst %.2fs %s] %s" % (time.time() - t0, ok, ob.name), flush=True)
+        if ok:
+            return VCResult(ob.name, "valid", "z3-inst", time.time() - t0, ob.where, ob.kind, path_id=ob.path_id)
     s = z3.Solver()
     s.set("timeout", timeout_ms)
     s.add(ob.pc)
     s.add(z3.Not(ob.goal))
     r = s.check()
     dt = time.time() - t0
+    if os.environ.get("A5VERIF_TRACE"):
+        print("[vc %.2fs %s] %s" % (dt, r, ob.name), flush=True)
     if r == z3.unsat:
         if both:
             c = cvc5_check(smt2_of(ob.pc, ob.goal), timeout_ms / 1000.0)
@@ -193,6 +345,25 @@ def run_task(name, fn, settings=None, timeout_ms=60000, both=False, min_return_p
                                     prev.model, ob.path_id, prev.reason))
             continue
         full = name + "/" + ob.name
+        if ob.kind == "cover":
+            # reachability: the path condition (quantifier-free part) must be satisfiable
+            sc = z3.Solver()
+            sc.set("timeout", 10000)
+            for h in _conjuncts(ob.pc, []):
+                if not has_quant_cached(h):
+                    sc.add(h)
+            tc = time.time()
+            rc = sc.check()
+            if rc == z3.sat and any(has_quant_cached(h) for h in _conjuncts(ob.pc, [])):
+                sf = z3.Solver()
+                sf.set("timeout", 5000)
+                sf.add(ob.pc)
+                if sf.check() == z3.unsat:      # the quantified assumptions contradict each other / the path
+                    rc = z3.unsat
+            st = "valid" if rc == z3.sat else ("invalid" if rc == z3.unsat else "unknown")
+            out.vcs.append(VCResult(full, st, "z3", time.time() - tc, ob.where, "cover", path_id=ob.path_id,
+                                    reason="contradictory assumptions: nothing is reachable here" if rc == z3.unsat else None))
+            continue
         kf = None
         for k in known:
             if re.fullmatch(k["obligation"], full):
